@@ -202,6 +202,19 @@ impl VerifCurve {
     }
 }
 
+impl VerifCurve {
+    /// Hand the curve to Python (as the `Curve` class of the extension module).
+    pub fn into_py_object(self, py: pyo3::Python<'_>) -> pyo3::PyResult<pyo3::PyObject> {
+        pyo3::Py::new(py, self.0).map(|o| o.into_any())
+    }
+
+    /// Take a `Curve` back from Python.
+    pub fn from_py_object(obj: &pyo3::Bound<'_, pyo3::PyAny>) -> pyo3::PyResult<Self> {
+        use pyo3::prelude::*;
+        obj.extract::<Curve>().map(VerifCurve)
+    }
+}
+
 macro_rules! spline_access {
     ($wrap: ident, $inner: ident, $inner_mut: ident, $name: ident, $type: ident) => {
         pub fn $wrap(inner: PPSpline<$type>) -> $name {
